@@ -213,8 +213,16 @@ def run(ck: Check) -> None:
         data = gen.oracle_bytes(payload)
         log = []
         sigs = WatchDict({gen.key(8).hex: gen.raw_entry(gen.key(8), data), "junk": "x", gen.key(9).hex: {"signature": "00" * 64}})
-        if j % 2:
+        older = None
+        if j % 3 == 1:
             sigs[kk.hex] = {"signature": "11" * 64}          # the signer's own earlier entry, about to be replaced
+        elif j % 3 == 2:
+            # the signer's earlier entry in another shape (an OpenPGP entry with a note, an annotated one), the very dict object also sitting in an older
+            # envelope (a shallow copy of the map): signing replaces the entry in *this* map by a fresh raw entry and leaves the older envelope's alone
+            shared = rng.choice([{"other_headers": "04001608", "signature": "22" * 64, "see_also": "ab" * 20}, {"signature": "33" * 64, "comment": "first try"}])
+            sigs[kk.hex] = shared
+            older = {"signatures": dict(sigs), "signed": {"older": True}}
+            older_before = copy.deepcopy(older)
         env = WatchDict({"signatures": sigs, "signed": payload})
         sigs.name, env.name = "signatures", "envelope"
         sigs.log = env.log = log
@@ -226,6 +234,10 @@ def run(ck: Check) -> None:
         except Exception as e:  # noqa: BLE001
             ck.violation("signing a signable envelope failed", {"error": repr(e)[:200], "envelope_kind": "dict subclass"}, "sign-failed:watched")
             continue
+        if older is not None and not proto.deep_equal(older, older_before):
+            ck.violation("sign_signable changed an entry object in place: an older envelope that shares the entry (shallow copy of the map) was altered",
+                         {"older_entry_now": proto.enc(older["signatures"].get(kk.hex))[:200]}, "sign-alters-shared-entry")
+            break
         foreign = [(n, w, proto.label(k)) for (n, w, k) in log if not (n == "signatures" and w == "store" and k == kk.hex)]
         if foreign or env["signatures"].get(kk.hex) != gen.raw_entry(kk, data):
             ck.violation("sign_signable modified more than the signer's own entry of the signature map (other entries were removed / re-inserted, or the whole map replaced — visible to a concurrent reader or signer)",
